@@ -12,7 +12,7 @@ from qrv.oracles import fc as fco
 LEVEL = "exploration"
 RULE = ("shift operators for basis sizes 12-100 and coordinate shifts in [-3.5,3.5] incl. 0; aggregates of 1-3 molecules with 0-2 modes each, "
         "level counts 1-4 per electronic state (different in ground and excited state), Huang-Rhys factors 0-3 incl. 0, couplings incl. 0, "
-        "multiplicity 1 (thorough: also 2). Every Hamiltonian and dipole element between all pairs of vibronic states is compared. "
+        "multiplicity 1 and 2 (two-exciton builds also with fem_full=True, where the coupling connects the ground state and the two-exciton band). Every Hamiltonian and dipole element between all pairs of vibronic states is compared. "
         "distinct = (class, structure of modes/level counts, rounded parameters); non-trivial iff at least one mode has a non-zero Huang-Rhys factor "
         "and more than one level, and (aggregates) at least one non-zero resonance coupling or dipole.")
 ASSUMPTIONS = ["full vibrational state space (vibgen_approx=None); truncated state generation is not claimed",
@@ -39,7 +39,7 @@ def gen_cases(tier, rng):
     na = 60 if tier == "quick" else 400
     for i in range(na):
         nmol = int(rng.integers(1, 4))
-        mult = 2 if (tier == "thorough" and nmol >= 2 and rng.random() < 0.3) else 1
+        mult = 2 if (nmol >= 2 and rng.random() < (0.3 if tier == "thorough" else 0.2)) else 1
         maxlev = 4 if nmol <= 2 else 3
         if mult == 2:
             maxlev = 2
@@ -67,7 +67,8 @@ def gen_cases(tier, rng):
         ntot = sum(nvib(s) for s in states)
         if ntot > (160 if tier == "quick" else 260):
             continue
-        cases.append({"cls": "aggregate", "mols": mols, "J": J.tolist(), "mult": mult, "ntot": ntot, "cost": 0.5 + (ntot / 40.0) ** 2})
+        cases.append({"cls": "aggregate", "mols": mols, "J": J.tolist(), "mult": mult, "ntot": ntot, "cost": 0.5 + (ntot / 40.0) ** 2,
+                      "fem_full": bool(mult == 2 and len(cases) % 2 == 0)})
     # many vibrational levels / strong displacement: the overlap table is needed up to its last tabulated level
     for i in range(12 if tier == "quick" else 80):
         nmol = 1 + (i % 2)
@@ -192,7 +193,11 @@ def run_case(case, ctx):
                   for b in range(a + 1, nmol):
                       if J[a, b] != 0:
                           agg.set_resonance_coupling(a, b, float(J[a, b]))
-        agg.build(mult=mult)
+        if case.get("fem_full"):
+            # full Frenkel exciton model: the resonance coupling also connects the ground state with the two-exciton band
+            agg.build(mult=mult, fem_full=True)
+        else:
+            agg.build(mult=mult)
       H = numpy.array(agg.get_Hamiltonian().data)
       DD = numpy.array(agg.get_TransitionDipoleMoment().data)
       sigs = [(tuple(int(x) for x in e), tuple(int(x) for x in v)) for (e, v) in agg.vibsigs]
@@ -254,7 +259,7 @@ def run_case(case, ctx):
                 continue
             diff = [i for i in range(nmol) if ea[i] != eb[i]]
             # Hamiltonian: same band, one excitation moved
-            if ka == kb and len(diff) == 2:
+            if (ka == kb or (case.get("fem_full") and abs(ka - kb) == 2)) and len(diff) == 2:
                 i, j = diff
                 ref = Jint[i, j] * overlap(ea, va, eb, vb)
                 dv = abs(H[a, b] - ref)
@@ -276,7 +281,7 @@ def run_case(case, ctx):
                 dv = float(numpy.max(numpy.abs(DD[a, b])))
                 if dv > worstD:
                     worstD, wD = dv, (a, b, DD[a, b].tolist(), [0, 0, 0])
-    det = {"nmol": nmol, "mult": mult, "Ntot": n, "modes": [[md["n0"], md["n1"], md["hr"]] for (_, md) in mlist]}
+    det = {"nmol": nmol, "mult": mult, "fem_full": bool(case.get("fem_full")), "Ntot": n, "modes": [[md["n0"], md["n1"], md["hr"]] for (_, md) in mlist]}
     ctx.check("coupling==J*overlaps", worstH, 1e-10 * max(scaleJ, 1e-300) + 1e-300, dict(det, worst=wH, elements=nH))
     ctx.check("no-other-couplings", worstO, 1e-12 * max(scaleJ, float(numpy.max(numpy.abs(H))), 1e-300), dict(det, worst=wO))
     ctx.check("dipole==d*overlaps", worstD, 1e-10 * scaleD, dict(det, worst=wD, elements=nD))
@@ -297,7 +302,10 @@ def run_case(case, ctx):
                     md["hr"] = float("%.4g" % (md["hr"] * 1.6 + 0.25))
                     with ctx.lib("Mode.set_HR on a built aggregate, then rebuild"):
                         modes_of[mi][kk].set_HR(1, md["hr"])
-                        if case["mult"] == 2:
+                        if case["mult"] == 2 and case.get("fem_full"):
+                            agg.clean()
+                            agg.build(mult=2, fem_full=True)
+                        elif case["mult"] == 2:
                             agg.rebuild(mult=2)
                         else:
                             agg.rebuild()
